@@ -1178,7 +1178,7 @@ def run(res):
                    "%d of %d cases disagree" % (n_mism, total))
     res.extra["cases"] = total
     res.extra["histogram"] = dict(sorted(hist.items()))
-    res.extra["exhaustive"] = ("<=4 modules, kinds {Local,System,Builtin}, all requested subsets; 5 modules: all structures x 48 samples"
+    res.extra["exhaustive_scope"] = ("<=4 modules, kinds {Local,System,Builtin}, all requested subsets; 5 modules: all structures x 48 samples"
                                if thorough else "<=4 modules, kinds {Local,System}, all requested subsets")
     res.extra["sweep_wall_s"] = round(time.time() - t0, 1)
     # ---- the extracted model against the kernel's evaluation of the same definitions
